@@ -276,7 +276,7 @@ static pid_t process_fork(const int *except, size_t num_except)
     goto finish;
   }
 
-  for (int i = 0; i < max_fd; i++) {
+  for (int i = 0; i <= max_fd; i++) {
     // Make sure we don't close the error pipe file descriptors twice.
     if (i == pipe.read || i == pipe.write) {
       continue;
